@@ -13,7 +13,7 @@
    theorems speak about stddev^2 and stderr^2 (the check compares the squares).  *)
 From Coq Require Import QArith ZArith List Bool Lia Arith Sorted Permutation.
 From CC Require Import Base.XQ Base.ListX Spec.Stats Model.Scale
-  Proofs.ScaleProofs Proofs.ScaleMedianProofs Proofs.ScaleExpandProofs.
+  Proofs.ScaleProofs Proofs.ScaleMedianProofs Proofs.ScaleExpandProofs Proofs.ScaleMedianFixProofs.
 Import ListNotations.
 Local Close Scope Q_scope.
 Local Open Scope nat_scope.
@@ -116,6 +116,15 @@ Theorem C14_median_refuted :
     weighted_median (map cnt ns) vs = Fin (3 # 2) /\ (middle (expand vs ns) == 2)%Q.
 Proof. exact weighted_median_refuted. Qed.
 Print Assumptions C14_median_refuted.
+
+(* About the PROPOSED PATCH, not the current code: [weighted_median_fixed] (Proofs/
+   ScaleMedianFixProofs.v) is the rule with `median_idx + 1` replaced by the next category that has
+   counts; it is a median of the respondents' values with NO side condition. *)
+Theorem C14_median_patched_rule vs ns :
+  length vs = length ns -> Sorted Qle vs -> 0 < list_sum ns ->
+  exists m, weighted_median_fixed (map cnt ns) vs = Fin m /\ is_median_of (expand vs ns) m.
+Proof. exact (weighted_median_fixed_is_median vs ns). Qed.
+Print Assumptions C14_median_patched_rule.
 
 (* NaN for a vector without numeric-valued respondents *)
 Theorem C14_median_nan ovals rs ord :
